@@ -43,3 +43,45 @@ func init() {
 		},
 	})
 }
+
+func init() {
+	register(&propSpec{
+		id: "C02",
+		explanation: "Structural necessary conditions of 'streams deliver every message once, in order, then the correct end-of-stream': queue/goroutine multiplicities along the path of a stream's envelopes match the frozen FIFO table (C02.1), no goroutine is started per envelope (C02.2), the body handed to RecvMsg is the Body of the envelope just read and an envelope is skipped only when it has no body (C02.3), io.EOF is returned only under facts trailer-present ∧ code OK (C02.4), the context branch of RecvMsg re-reads the terminal state because the library itself cancels the stream context at completion (C02.5), the only closer of the body queue is sequenced after its only sender (C02.6), half-close carries status OK + trailer and every path after the handler sends the trailer (C02.7). Liveness, counts and the interleavings themselves are NOT decided.",
+		ruleText:    "obligation = one queue role set, go site, send/skip edge, return, or path; non-trivial = needed provenance, facts, dominance or a path search",
+		assumptions: baseAssumptions,
+		run: func(c *Ctx, thorough bool) {
+			c.guard("C02.1", func() {
+				rulePipeline(c, "C02.1", func(q queueSpec) bool {
+					switch q.name {
+					case "stream.respChan", "stream.rCh", "conn.writeChan", "conn.unaryRpcChan", "srvstream.ch":
+						return true
+					}
+					return false
+				}, true)
+			})
+			c.guard("C02.2", func() { rulePerEnvelopeGoroutines(c, "C02.2") })
+			c.guard("C02.3", func() { ruleBodyForwarded(c, "C02.3") })
+			c.guard("C02.4", func() { ruleEOFOnlyOnOKTrailer(c, "C02.4") })
+			c.guard("C02.5", func() { ruleTerminalStateBeatsCancel(c, "C02.5") })
+			c.guard("C02.6", func() {
+				ruleCloseSendExclusion(c, "C02.6", func(d string) bool { return d == "rCh" })
+				ruleNoDoubleClose(c, "C02.6", func(d string) bool { return d == "rCh" })
+			})
+			c.guard("C02.7", func() { ruleHalfCloseAndFinalStatus(c, "C02.7") })
+		},
+	})
+	register(&propSpec{
+		id: "C03",
+		explanation: "Structural necessary conditions of 'the status a handler finishes with is the status the caller observes': every status conversion copies Code, Message and Details from the same-named fields of one source status (C03.1), a status is attached to the unary reply exactly under fact handler-error≠nil and the stream trailer is built from the handler's result (C03.2), both error→status conversions go through status.FromError and a non-nil error never yields OK (C03.3), every return of CallUnaryMethod is (proven non-nil body, nil) or (·, provably non-nil error) because invoke dereferences the body unconditionally (C03.4), a success return on the client receive path has fact Reset_==nil (C03.5), a reset cannot overtake the trailer because only the writer goroutine writes to the connection (C03.6). Code/message/detail values are NOT decided.",
+		ruleText:    "obligation = one conversion site, return, or write site; non-trivial = needed provenance or facts",
+		assumptions: baseAssumptions,
+		run: func(c *Ctx, thorough bool) {
+			c.guard("C03.1", func() { ruleStatusTransfer(c, "C03.1") })
+			c.guard("C03.2", func() { ruleStatusIffFailed(c, "C03.2") })
+			c.guard("C03.3", func() { ruleErrorToStatusSiblings(c, "C03.3") })
+			c.guard("C03.4", func() { ruleValueOrError(c, "C03.4") })
+			c.guard("C03.5", func() { ruleResetNeverSuccess(c, "C03.5") })
+		},
+	})
+}
